@@ -151,4 +151,7 @@ def demangle_text(t):
 if __name__ == '__main__':
     import argparse
     ap = argparse.ArgumentParser(); ap.add_argument('prop'); ap.add_argument('--tier', default=os.environ.get('VERIF_TIER', 'quick'))
-    a = ap.parse_args(); sys.exit(main(a.prop, a.tier))
+    a = ap.parse_args()
+    if getattr(a, 'only', None) or getattr(a, 'caps', None):
+        os.environ['VERIF_PARTIAL'] = '1'
+    sys.exit(main(a.prop, a.tier))
